@@ -294,7 +294,11 @@ impl DateTimePrinter {
         // possible" to the actual offset. So we just do basic rounding
         // here.
         if offset.part_seconds_ranged().abs() >= C(30) {
-            if minutes == 59 {
+            if hours == 25 && minutes == 59 {
+                // Rounding up would give `26:00`, which is beyond the
+                // maximum offset and thus could not be parsed back. The
+                // closest printable offset is `25:59`.
+            } else if minutes == 59 {
                 hours = hours.saturating_add(1);
                 minutes = 0;
             } else {
